@@ -677,6 +677,9 @@ static void gen_round3(rng &r, bool th)
         for (int i = 0; i < n; i++) P("push " + S(10 + i));
         P("last"); P("tail"); P("fixup -1"); P("distance 0 " + S(n)); P("getlast 0 " + S(n) + " 1");
         if (n) { P("pop"); P("tail"); P("push 77"); P("last"); }
+        P("moveback " + S(n + 1));
+        P("push 5"); P("last"); P("tail"); P("pop");
+        P("moveback 0"); P("last");
     }
     // (d3) igris::ring<char>: every member function of the second instantiation, mixed with read/write
     for (int rep = 0; rep < (th ? 6 : 1); rep++)
@@ -760,7 +763,7 @@ static void gen_round3(rng &r, bool th)
             }
             P("lifecount " + S(n) + " " + sc);
         }
-    for (const char *sc : {"g", "ug", "ugouga", "guog", "Ug", "Og", "ygm", "zgcg"})
+    for (const char *sc : {"g", "ug", "ugouga", "guog", "Ug", "Og", "ygm", "zgcg", "M", "uMuo", "uMgMy", "UOMa"})
         for (int n : {1, 2, 3}) P("lifecount " + S(n) + " " + sc);
     P("lifecount 3 uuugooog");
     // (g) cyclic_buffer[i] for negative i down to the boundary counter - size + 1 (admissible: counter - i < size)
